@@ -89,6 +89,7 @@ def script_of(cases):
     for i, (name, lines, kind) in enumerate(cases):
         out.append("echo CASE %d" % i)
         out.append("new")
+        out.append("phases 1")
         out += lines
         out += ["load", "dump", "check", "destroy"]
     return "\n".join(out) + "\n"
@@ -124,6 +125,10 @@ def run_cases(run, cases, exe, drv):
                         r["wf"] = line
                     elif line.startswith("levels "):
                         r["levels"] = line
+                    elif line.startswith("sets "):
+                        r["sets"] = line
+                    elif line.startswith("totals "):
+                        r["totals"] = line
                     elif line.startswith("check "):
                         r["check"] = line
             if rc != 0 or rc2 != 0:
@@ -157,6 +162,10 @@ def judge(run, cases, results):
                 # this is a violation with a concrete input (above); otherwise the correspondence is broken
                 run.violation("correspondence:levels:%s" % kind, "model of hwloc_connect_levels/special lists disagrees with the implementation on %s" % name,
                               script + "\n--- verdict\n" + str(r.get("levels"))[:3000], no_input=(r["wf"] or "").startswith("wf ok"))
+            elif r.get("sets") != "sets ok" or r.get("totals") != "totals ok":
+                run.violation("correspondence:sets-pipeline:%s" % kind,
+                              "model of the set post-processing (root fix-up, propagate_nodeset, fixup_sets, remove_unused_sets, propagate_total_memory) disagrees with the implementation on %s" % name,
+                              script + "\n--- verdict\n%s\n%s" % (r.get("sets"), r.get("totals")), no_input=(r["wf"] or "").startswith("wf ok"))
             elif (r["wf"] or "").startswith("wf ok"):
                 run.cov["traces_validated_against_impl"] += 1
             if r["check"] != "check ok":
